@@ -11,7 +11,7 @@ GROUP = "Fmt"
 META = {
     "group": "Fmt",
     "technique": "Coq proof of parse/print round trip for the formatter's expression grammar as an instance of the generic precedence-tier development (coq/SqlFmt/PrecClimb*), theorem on the comment cursor of print_comment.go, precedence table regenerated from tables.go on every run, vm_compute correspondence of model parser/printer with `ego fmt --ast` / `ego fmt`; oracle through the real binary on generated programs and the repository's .ego corpus (format succeeds, same run/test outcome, idempotent, comments kept)",
-    "text": "Theorems C05_expr_roundtrip / C05_reparse / C05_idempotent (every expression tree nested as the precedence table allows - in particular every tree the formatter's parser returns - is read back from its print as the same tree; any table without a repeated operator), C05_comments_kept (for every comment list and every sequence of leading/trailing emission requests the written comments are the comment list itself, in order), C05_if_ladder_roundtrip (an if / else-if ladder is read back with every rung's own init, condition and block), C05_old_minus_refuted ('- -x' was written '--x') are proved for all inputs over the model of identifiers, integer and string literals, prefix - !, the five binary levels and parentheses, and of ladder headers with opaque items. partial: calls, selectors, index/slice, composite literals, function literals, types, all statement forms and headers (incl. the repaired composite-literal-in-header rule), directives and the tokenizer are checked through the real binary only (generated programs and the .ego corpus: formatting succeeds, outcome of ego test/run equal, fmt(fmt(x)) = fmt(x), comment multiset equal, `ego fmt --ast` tree equal, ladder skeleton equal to the model's), not proved",
+    "text": "Theorems C05_expr_roundtrip / C05_reparse / C05_idempotent (every expression tree nested as the precedence table allows - in particular every tree the formatter's parser returns - is read back from its print as the same tree; any table without a repeated operator), C05_comments_kept (for every comment list and every sequence of leading/trailing emission requests the written comments are the comment list itself, in order), C05_if_ladder_roundtrip (an if / else-if ladder is read back with every rung's own init, condition and block), C05_old_minus_refuted ('- -x' was written '--x') are proved for all inputs over the model of identifiers, integer and string literals, prefix - !, the five binary levels and parentheses, and of ladder headers with opaque items. partial: calls, selectors, index/slice, composite literals, function literals, types, all statement forms and headers (incl. the repaired composite-literal-in-header rule), directives and the tokenizer are checked through the real binary only (generated programs and the .ego corpus: formatting succeeds, outcome of ego test/run equal, fmt(fmt(x)) = fmt(x), comment multiset equal, `ego fmt --ast` tree equal, identifier/literal sequence equal, ladder skeleton equal to the model's), not proved",
     "note": "Trusted: Coq kernel; hand-written model of parseBinary/parseUnary as a tier chain (extensionally compared with the real Pratt loop on every run); regex translator for binaryPrecedence; Python comment scanner and outcome normaliser (line numbers, paths, durations removed); the ego binary built from the working tree.",
 }
 
@@ -178,7 +178,90 @@ def gen_forms(rng, i):
     vals = {"ladder": "\n".join(gen_ladder(rng, 10 * i + k) for k in range(4))}
     for k, choices in enumerate([(1, 3, 5), (1, 4, 7), (0, 1, 2), (1, 2), (9, 10, 12), (0, 1, 2), (1, 2, 3), (2, 5), (3, 6), (21, 4), (5, 6)], 1):
         vals["k%d" % k] = rng.choice(choices)
-    return FORMS_TEMPLATE % vals
+    return re.sub(r"\b(pair|sum|Pt)\b", lambda m: "%s%d" % (m.group(1), i), FORMS_TEMPLATE % vals)   # one name space per directory
+
+
+def gen_sig(rng, prefix):
+    """a parameter list made of shared-type groups ("a, b, c, d float64, lo, hi int"): returns (params text,
+    names in order, argument texts)"""
+    types = ["int", "float64", "string"]
+    lits = {"int": lambda k: str(k + 1), "float64": lambda k: "%d.5" % (k + 1), "string": lambda k: '"s%d"' % k}
+    names, parts, args, k = [], [], [], 0
+    last = None
+    for g in range(rng.randint(2, 4)):
+        t = rng.choice([x for x in types if x != last])
+        last = t
+        size = rng.choice([4, 4, 6, 7, 8, 1, 2, 3, 5]) if g == 0 else rng.choice([1, 2, 2, 3, 4, 5])
+        group = ["%s%d" % (prefix, k + j) for j in range(size)]
+        k += size
+        names += group
+        parts.append(", ".join(group) + " " + t)
+        args += [lits[t](len(args) + j) for j in range(size)]
+    return ", ".join(parts), names, args
+
+
+def gen_forms2(rng, i):
+    """signatures with shared-type parameter groups (function, method, literal), print statements with and without the
+    trailing comma, and literal spellings (byte escapes, non-UTF-8 bytes, raw strings, runes, number bases); every test
+    prints values that depend on the names/literals being written back exactly"""
+    p1, n1, a1 = gen_sig(rng, "a")
+    p2, n2, a2 = gen_sig(rng, "m")
+    p3, n3, a3 = gen_sig(rng, "z")
+    esc = ["\\xff", "\\xfe", "\\x80", "\\xc3", "\\t", "\\n", "\\r", "\\\\", "\\\"", "é", "a", "Z", " ", "\\x41", "世"]
+    s1 = "".join(rng.choice(esc) for _ in range(rng.randint(1, 8)))
+    s2 = "".join(rng.choice(esc) for _ in range(rng.randint(0, 6)))
+    raw = "".join(rng.choice(['"', "\\", "n", " ", "x", "'", "é", "\\n"]) for _ in range(rng.randint(0, 6)))
+    nums = rng.sample(["0x1F", "1e3", "0b101", "0o17", "1_000", "3.25", "007", "1.5e-3", "0", "42", "0xff", "2.5E2", "'x'", "'é'", "'\\n'", "'\\t'"], 8)
+    prints = []
+    for k in range(rng.randint(2, 5)):
+        items = ", ".join(rng.choice(['"p%d"' % k, str(k), "x", '"a b"']) for _ in range(rng.randint(0, 3)))
+        if items and rng.random() < 0.5:
+            prints.append("    print %s, ; print \"|\"" % items)
+        else:
+            prints.append("    print %s" % items if items else "    print")
+    text = """import "fmt"
+
+type Acc struct {
+    base int
+}
+
+func mix(%s) string {
+    return fmt.Sprint(%s)
+}
+
+func (r Acc) join(%s) string {
+    return fmt.Sprint(r.base, %s)
+}
+
+@test "form: shared-type parameter groups %d"
+{
+    lit := func(%s) string {
+        return fmt.Sprint(%s)
+    }
+    k := Acc{base: %d}
+    fmt.Println(mix(%s))
+    fmt.Println(k.join(%s))
+    fmt.Println(lit(%s))
+}
+
+@test "form: print with and without trailing comma %d"
+{
+    x := %d
+%s
+    print "end", x
+}
+
+@test "form: literal spellings %d"
+{
+    s := "%s"
+    t := "%s"
+    r := `%s`
+    fmt.Println(len(s), []byte(s), len(t), []byte(t), len(r), r)
+    fmt.Println(%s, "", ``, true, nil)
+}
+""" % (p1, ", ".join(n1), p2, ", ".join(n2), i, p3, ", ".join(n3), rng.randint(1, 9), ", ".join(a1), ", ".join(a2), ", ".join(a3),
+       i, rng.randint(1, 9), "\n".join(prints), i, s1, s2, raw, ", ".join(nums))
+    return re.sub(r"\b(mix|Acc)\b", lambda m: "%s%d" % (m.group(1), i), text)
 
 
 def gen_program(rng, i):
@@ -248,6 +331,45 @@ def comments_of(src):
         else:
             i += 1
     return sorted(out)
+
+
+def words_of(src):
+    """the sequence of identifiers/keywords, numbers and literal placeholders of a source text (comments, layout,
+    punctuation and operators left out): the formatter never renames, drops, duplicates or reorders them"""
+    out, i, n = [], 0, len(src)
+    while i < n:
+        c = src[i]
+        if c == '"' or c == "'":
+            j = i + 1
+            while j < n and src[j] != c and src[j] != "\n":
+                j += 2 if src[j] == "\\" else 1
+            out.append("<str>" if c == '"' else src[i:j + 1])
+            i = j + 1
+        elif c == "`":
+            j = src.find("`", i + 1)
+            out.append("<str>")
+            i = n if j < 0 else j + 1
+        elif src.startswith("//", i):
+            j = src.find("\n", i)
+            i = n if j < 0 else j
+        elif src.startswith("/*", i):
+            j = src.find("*/", i + 2)
+            i = n if j < 0 else j + 2
+        elif c.isalpha() or c == "_":
+            j = i
+            while j < n and (src[j].isalnum() or src[j] == "_"):
+                j += 1
+            out.append(src[i:j])
+            i = j
+        elif c.isdigit():
+            j = i
+            while j < n and (src[j].isalnum() or src[j] in "_."):
+                j += 1
+            out.append(src[i:j])
+            i = j
+        else:
+            i += 1
+    return out
 
 
 def norm_outcome(rc, out, paths):
@@ -435,22 +557,24 @@ def run(ck):
                 files.append(("gen/gen%03d.ego" % i, as_test(p, i)))
             for i in range(2 if quick else 25):
                 files.append(("gen/forms%03d.ego" % i, gen_forms(rng, i)))
+            for i in range(3 if quick else 40):
+                files.append(("gen/lits%03d.ego" % i, gen_forms2(rng, i)))
             corpus = sorted(glob.glob(os.path.join(vf.REPO, "tests", "**", "*.ego"), recursive=True))
             pick = corpus if not quick else rng.sample(corpus, min(len(corpus), 40))
             for p in sorted(pick):
-                files.append((os.path.relpath(p, os.path.join(vf.REPO, "tests")), open(p, encoding="utf8", errors="replace").read()))
+                files.append((os.path.relpath(p, os.path.join(vf.REPO, "tests")), open(p, encoding="utf8", errors="replace", newline="").read()))
     else:
         for f in replay["files"]:
             src = f.get("source")
             if src is None:
-                src = open(os.path.join(vf.REPO, "tests", f["name"]), encoding="utf8", errors="replace").read()
+                src = open(os.path.join(vf.REPO, "tests", f["name"]), encoding="utf8", errors="replace", newline="").read()
             files.append((f["name"], src))
     dirs = {k: os.path.join(src_dir, k) for k in "ofg"}
 
     def put(root, rel, text):
         path = os.path.join(root, rel)
         os.makedirs(os.path.dirname(path), exist_ok=True)
-        open(path, "w").write(text)
+        open(path, "w", encoding="utf8", newline="").write(text)
         return path
 
     def rep_of(name):
@@ -458,7 +582,13 @@ def run(ck):
         return {"files": [{"name": name, "source": src if name.startswith("gen/") else None}]}
 
     def fmt_all(root, names):
-        """ego fmt -w over all files; returns {name: error text} for the files it refuses"""
+        """ego fmt -w over all files (the command line takes at most 99 files); {name: error text} for refused files"""
+        bad = {}
+        for k in range(0, len(names), 60):
+            bad.update(fmt_chunk(root, names[k:k + 60]))
+        return bad
+
+    def fmt_chunk(root, names):
         bad, todo = {}, list(names)
         for _ in range(8):
             if not todo:
@@ -510,19 +640,27 @@ def run(ck):
     if bad:
         ro = test_lines(dirs["o"])
     for n in good:
-        out = open(os.path.join(dirs["f"], n), encoding="utf8", errors="replace").read()
+        out = open(os.path.join(dirs["f"], n), encoding="utf8", errors="replace", newline="").read()
         put(dirs["g"], n, out)
     bad2 = fmt_all(dirs["g"], good)
     for n in good:
         src = dict(files)[n]
-        out = open(os.path.join(dirs["f"], n), encoding="utf8", errors="replace").read()
+        out = open(os.path.join(dirs["f"], n), encoding="utf8", errors="replace", newline="").read()
         nfmt += 1
         if comments_of(src) or re.search(r"[-+*/<>=!|&]", src):
             nontriv.add(n)
-        out2 = open(os.path.join(dirs["g"], n), encoding="utf8", errors="replace").read()
+        out2 = open(os.path.join(dirs["g"], n), encoding="utf8", errors="replace", newline="").read()
         if n in bad2 or out2 != out:
             ck.violation(known_cause(src) or "not-idempotent", "ego fmt of its own output for %s %s" % (
                 n, "fails: " + " ".join(bad2[n].split())[-160:] if n in bad2 else "differs"), replay=rep_of(n))
+            found[0] = True
+        wa, wb = words_of(src), words_of(out)
+        if "".join(wa) != "".join(wb):          # joined: the Ego tokenizer reads "5abc" as 5 abc
+            k = 0
+            while k < min(len(wa), len(wb)) and wa[k] == wb[k]:
+                k += 1
+            ck.violation(known_cause(src) or "words-differ", "ego fmt changes the identifiers/literals of %s: %r becomes %r" % (
+                n, wa[max(0, k - 3):k + 4], wb[max(0, k - 3):k + 4]), replay=rep_of(n))
             found[0] = True
         ca, cb = comments_of(src), comments_of(out)
         if ca != cb:
@@ -531,7 +669,10 @@ def run(ck):
             found[0] = True
     # the syntax tree of the formatted copy equals the tree of the original (positions aside): `ego fmt --ast`
     def dumps(root):
-        rc, out = ego_run(["fmt", "--ast"] + [os.path.join(root, n) for n in good], timeout=900)
+        rc, out = 0, ""
+        for k in range(0, len(good), 60):
+            r1, o1 = ego_run(["fmt", "--ast"] + [os.path.join(root, n) for n in good[k:k + 60]], timeout=900)
+            rc, out = rc or r1, out + o1 + ("" if o1.endswith("\n") else "\n")
         parts = re.split(r"(?m)^(?=File$)", re.sub(r"[ \t]+@\d+:\d+[ \t]*$", "", out, flags=re.M))
         return rc, [x for x in parts if x.strip()]
     if good:
@@ -565,7 +706,7 @@ def run(ck):
                 for kk in "of":
                     shutil.rmtree(os.path.join(src_dir, "one" + kk), ignore_errors=True)
                 put(os.path.join(src_dir, "oneo"), n, dict(files)[n])
-                put(os.path.join(src_dir, "onef"), n, open(os.path.join(dirs["f"], n), encoding="utf8", errors="replace").read())
+                put(os.path.join(src_dir, "onef"), n, open(os.path.join(dirs["f"], n), encoding="utf8", errors="replace", newline="").read())
                 if test_lines(os.path.join(src_dir, "oneo")) != test_lines(os.path.join(src_dir, "onef")):
                     culprit = n
                     break
